@@ -14,7 +14,7 @@ func nullRejectingObs() []Ob {
 }
 
 var c09AssertAllow = []allowSite{
-	{"oidc.NewEncoder", "value.Interface().(SpaceDelimitedArray)", "schema invokes a registered encoder only with values of the registered type (RegisterEncoder(SpaceDelimitedArray{}, ...))"},
+	{"oidc.NewEncoder", "value.Interface().(oidc.SpaceDelimitedArray)", "schema invokes a registered encoder only with values of the registered type (RegisterEncoder(SpaceDelimitedArray{}, ...))"},
 }
 
 var c09PreconditionAllow = []allowSite{
